@@ -137,27 +137,45 @@ pub fn evaluate_filters(
 ) -> bool {
     for filter in filters {
         if let Some(&lhs_code) = bindings.get(&filter.variable) {
-            // If the filter value is itself a bound variable, compare by dictionary ID
-            if let Some(&rhs_code) = bindings.get(&filter.value) {
-                match filter.operator.as_str() {
-                    "!=" if lhs_code == rhs_code => return false,
+            let rhs_code = bindings.get(&filter.value).copied();
+            let operator = filter.operator.as_str();
+
+            // Two bound variables are equal exactly when they denote the same term
+            if let Some(rhs_code) = rhs_code {
+                match operator {
                     "=" if lhs_code != rhs_code => return false,
+                    "!=" if lhs_code == rhs_code => return false,
+                    "=" | "!=" => continue,
                     _ => {}
                 }
-            } else {
-                // Compare bound variable against a numeric constant
-                let value_str = dict.decode(lhs_code).unwrap_or("");
-                let bound_num: f64 = value_str.parse().unwrap_or(0.0);
-                let filter_num: f64 = filter.value.parse().unwrap_or(0.0);
-                match filter.operator.as_str() {
-                    ">" if bound_num <= filter_num => return false,
-                    "<" if bound_num >= filter_num => return false,
-                    ">=" if bound_num < filter_num => return false,
-                    "<=" if bound_num > filter_num => return false,
-                    "=" if (bound_num - filter_num).abs() > std::f64::EPSILON => return false,
-                    "!=" if (bound_num - filter_num).abs() <= std::f64::EPSILON => return false,
-                    _ => {}
-                }
+            }
+
+            // Otherwise compare the values: numerically when both are numbers;
+            // a value that is not a number satisfies no ordering comparison
+            let lhs_text = dict.decode(lhs_code).unwrap_or("");
+            let rhs_text = match rhs_code {
+                Some(code) => dict.decode(code).unwrap_or(""),
+                None => filter.value.as_str(),
+            };
+            let holds = match (lhs_text.parse::<f64>(), rhs_text.parse::<f64>()) {
+                (Ok(lhs), Ok(rhs)) => match operator {
+                    ">" => lhs > rhs,
+                    "<" => lhs < rhs,
+                    ">=" => lhs >= rhs,
+                    "<=" => lhs <= rhs,
+                    "=" => (lhs - rhs).abs() <= std::f64::EPSILON,
+                    "!=" => (lhs - rhs).abs() > std::f64::EPSILON,
+                    _ => true,
+                },
+                _ => match operator {
+                    "=" => lhs_text == rhs_text,
+                    "!=" => lhs_text != rhs_text,
+                    ">" | "<" | ">=" | "<=" => false,
+                    _ => true,
+                },
+            };
+            if !holds {
+                return false;
             }
         }
     }
